@@ -10,10 +10,10 @@ package main
 
 import (
 	"fmt"
+	"sort"
 	"strings"
 	"time"
 
-	"github.com/irai/packet"
 	"pvharness/lib"
 )
 
@@ -91,8 +91,17 @@ func runMalformedCase(a []string) string {
 	}
 	done := make(chan string, 1)
 	go func() {
-		ta := malformedRun(ops, true, fill, stp)
-		tb := malformedRun(ops, false, 0, 0)
+		var ta, tb []string
+		if osGetenv("C10_ORDER") == "ba" { // which run goes first must not matter
+			tb = malformedRun(ops, false, 0, 0)
+			ta = malformedRun(ops, true, fill, stp)
+		} else {
+			ta = malformedRun(ops, true, fill, stp)
+			tb = malformedRun(ops, false, 0, 0)
+		}
+		if n := osGetenv("C10_SHOWSTEP"); n != "" && atoi(n) < len(ta) {
+			fmt.Fprintf(osStderr, "STEP %s A: %s\n", n, ta[atoi(n)])
+		}
 		for i := range ta {
 			if i >= len(tb) || ta[i] != tb[i] {
 				debugDiff(i, ta, tb)
@@ -129,6 +138,7 @@ func debugDiff(i int, ta, tb []string) {
 // malformedRun returns the full transcript, one entry per operation (a panic ends the run).
 func malformedRun(ops []op, shared bool, fill, stp byte) (out []string) {
 	e := newEnv()
+	e.lateMode = true
 	defer e.close()
 	buf := make([]byte, bufSize)
 	step := func(o *op) (res string) {
@@ -166,15 +176,13 @@ func malformedRun(ops []op, shared bool, fill, stp byte) (out []string) {
 		} else {
 			e.dispatch(frame, p, o)
 			e.s.Notify(frame)
-			if frame.PayloadID == packet.PayloadDHCP4 {
-				e.conn.WaitQuiet(4*time.Millisecond, 300*time.Millisecond) // decline goroutines
-			}
 		}
 		if shared {
 			for i := range buf {
 				buf[i] = fill + byte(i)*stp
 			}
 		}
+		e.setAsideLate()
 		_, fl := e.outputs(0)
 		return tag + " " + fl + " " + e.dump()
 	}
@@ -185,6 +193,26 @@ func malformedRun(ops []op, shared bool, fill, stp byte) (out []string) {
 			return out
 		}
 	}
-	out = append(out, e.dumpFull())
+	// the decline / release frames are sent by goroutines of the DHCP handler some time after the call that
+	// started them (built from copies made before the goroutine starts): for a damaged message the harness cannot
+	// tell how many to wait for, so they are compared as one multiset per history, after the connection went quiet
+	e.conn.WaitQuiet(80*time.Millisecond, 5*time.Second)
+	e.setAsideLate()
+	sort.Strings(e.late)
+	out = append(out, e.dumpFull(), "late:"+strings.Join(e.late, ","))
 	return out
+}
+
+// setAsideLate moves the frames sent by the DHCP handler's decline/release goroutines out of the per-step stream.
+func (e *env) setAsideLate() {
+	e.collect()
+	keep := e.pend[:0]
+	for _, f := range e.pend {
+		if it, cat := classify(f); cat == 'D' {
+			e.late = append(e.late, canonDHCP(f, strings.HasPrefix(it, "D(7,")))
+		} else {
+			keep = append(keep, f)
+		}
+	}
+	e.pend = keep
 }
